@@ -93,12 +93,12 @@ type Ctx struct {
 	Fset    *token.FileSet
 	byPath  map[string]*packages.Package
 
-	Funcs   []*FuncInfo
-	byObj   map[*types.Func]*FuncInfo
-	byLit   map[*ast.FuncLit]*FuncInfo
+	Funcs    []*FuncInfo
+	byObj    map[*types.Func]*FuncInfo
+	byLit    map[*ast.FuncLit]*FuncInfo
 	litOfVar map[*types.Var]*FuncInfo // local variable bound exactly once to a literal
 
-	prog *ssa.Program
+	prog    *ssa.Program
 	ssaPkgs []*ssa.Package
 
 	Obls       []Obligation
